@@ -98,6 +98,50 @@ pub fn run(c: &Case, tmp: &std::path::Path) -> Vec<String> {
                 }
                 std::fs::write(&p, b).unwrap();
             }
+            "group" => {
+                // the files of packs a,b,.. are concatenated into ONE sibling file and every one of these packs is
+                // recorded at that single location (what tools::concat + tools::set_location produce); originals removed
+                let files: Vec<std::path::PathBuf> = l[1].split(',').map(|t| file_of(t.parse().unwrap())).collect();
+                let outp = dir.join(&l[2]);
+                let r = std::panic::catch_unwind(|| -> Result<(), String> {
+                    jubako::tools::concat(&files, camino::Utf8Path::from_path(&outp).unwrap()).map_err(|e| err_class(&e).to_string())?;
+                    for f in &files {
+                        // the file may be the pack itself or a container pack holding it
+                        let cp = jubako::tools::open_pack(f).map_err(|e| err_class(&e).to_string())?;
+                        let uuids: Vec<uuid::Uuid> = cp.iter().map(|(u, _)| *u).collect();
+                        for u in uuids {
+                            jubako::tools::set_location(&main, u, l[2].as_str().into()).map_err(|e| err_class(&e).to_string())?;
+                        }
+                    }
+                    Ok(())
+                });
+                match r {
+                    Ok(Ok(())) => {
+                        for f in &files {
+                            let _ = std::fs::remove_file(f);
+                        }
+                    }
+                    Ok(Err(e)) => out.push(format!("{} group {}", id, e)),
+                    Err(_) => out.push(format!("{} group PANIC", id)),
+                }
+            }
+            "fileis" => {
+                // the file <name> is replaced by the file that held pack #k alone (a different valid pack at that location)
+                let k: usize = l[2].parse().unwrap();
+                let src = base.join(file_of(k).file_name().unwrap());
+                std::fs::copy(&src, dir.join(&l[1])).unwrap();
+            }
+            "corruptin" => {
+                // flip one byte inside pack #k's checked range, inside the file <name> which holds it alone
+                let p = dir.join(&l[1]);
+                let k: usize = l[2].parse().unwrap();
+                let mut b = std::fs::read(&p).unwrap();
+                let pos = if k == 1 && pkg != "one" { 128 + 128 } else { 128 };
+                if pos < b.len() {
+                    b[pos] ^= 0x40;
+                }
+                std::fs::write(&p, b).unwrap();
+            }
             "swap" => {
                 let src = file_of(l[2].parse().unwrap());
                 let dst = file_of(l[1].parse().unwrap());
